@@ -39,16 +39,18 @@ where
 {
 	match input.into() {
 		Input::Reader(r) => transcode_reader(BufReader::new(r), output),
-		Input::Slice(b) => match str::from_utf8(&b) {
-			Ok(s) => {
+		Input::Slice(b) => match (Encoding::detect(&b), str::from_utf8(&b)) {
+			(Encoding::Utf8, Ok(s)) => {
 				for de in serde_yaml::Deserializer::from_str(s) {
 					output.transcode_from(de)?;
 				}
 				Ok(())
 			}
-			Err(_) => {
+			_ => {
 				// The reader path supports automatic re-encoding of UTF-16 and
-				// UTF-32 input. See transcode_reader for details.
+				// UTF-32 input. See transcode_reader for details. Note that
+				// ASCII-only UTF-16 and UTF-32 text is also valid UTF-8 (with
+				// NUL bytes), so UTF-8 validity alone can't select the path.
 				transcode_reader(&*b, output)
 			}
 		},
